@@ -147,13 +147,9 @@ def check_status_plumbing(rep, repo, rule='C14.R3'):
     gr = repo.method('Model', 'get_results')
     try:
         _, text = Interp(repo).run(gr, {p_: S(p_) for p_ in gr.params[1:]}, selfterm=lp.MODEL)
-        alts = []
-        def split(t):
-            if t[0] == 'ite':
-                split(t[2]); split(t[3])
-            elif t != NONE:
-                alts.append(t)
-        split(text)
+        # every leaf of the returned conditional text, refined by the tests passed on the way (a text printed after
+        # `if outcome == 'Timeout': return` knows that the outcome is not the Timeout one)
+        alts = [leaf for _, leaf in split_paths(text) if leaf != NONE]
         from .. import doc as _doc
         def has_status(t, items=None):
             items = _doc.doc_of(t) if items is None else items
@@ -191,6 +187,52 @@ def check_status_plumbing(rep, repo, rule='C14.R3'):
 
 
 # ---- R4 -------------------------------------------------------------------------------------------------
+def status_strings_compared(repo):
+    """strings that `pulp_status` / `LpStatus[...]` / `.status` values are compared with (==, !=, in) in the solver package,
+    module-level and class-level string constants resolved  ->  (set of strings, number of comparison sites)"""
+    names = {}
+    for rel, tree in repo.trees.items():
+        for n in ast.walk(tree):
+            if isinstance(n, ast.Assign) and len(n.targets) == 1:
+                t = n.targets[0]
+                nm = t.id if isinstance(t, ast.Name) else (t.attr if isinstance(t, ast.Attribute) else None)
+                v = n.value
+                if nm and isinstance(v, ast.Constant) and isinstance(v.value, str):
+                    names.setdefault(nm, set()).add(v.value)
+                elif nm and isinstance(v, ast.Subscript) and isinstance(v.value, ast.Name) and v.value.id == 'LpStatus' and isinstance(v.slice, (ast.Name, ast.Attribute)):
+                    sv = pulpfacts.constants()['LpStatus'].get(v.slice.id if isinstance(v.slice, ast.Name) else v.slice.attr)
+                    if isinstance(sv, str):
+                        names.setdefault(nm, set()).add(sv)          # NAME = LpStatus[LpStatusOptimal]
+                elif nm and isinstance(v, ast.Name) and v.id == nm:
+                    pass                                              # class-level alias of the module constant of the same name
+    out, sites = set(), 0
+    solver_dir = repo.rel('solver')
+    for rel, tree in repo.trees.items():
+        if not rel.startswith(solver_dir):
+            continue
+        for n in ast.walk(tree):
+            if not isinstance(n, ast.Compare):
+                continue
+            parts = [n.left] + list(n.comparators)
+            def is_status(x):
+                return any((isinstance(y, ast.Attribute) and y.attr in ('pulp_status',)) or (isinstance(y, ast.Subscript) and isinstance(y.value, ast.Name) and y.value.id == 'LpStatus')
+                           or (isinstance(y, ast.Name) and y.id in ('status', 'pulp_status')) or (isinstance(y, ast.Call) and isinstance(y.func, ast.Name) and y.func.id == 'status_of')
+                           for y in ast.walk(x))
+            if not any(is_status(x) for x in parts):
+                continue
+            sites += 1
+            for x in parts:
+                if is_status(x):
+                    continue
+                for y in ([x] if not isinstance(x, (ast.Tuple, ast.List, ast.Set)) else x.elts):
+                    if isinstance(y, ast.Constant) and isinstance(y.value, str):
+                        out.add(y.value)
+                    elif isinstance(y, (ast.Name, ast.Attribute)):
+                        nm = y.id if isinstance(y, ast.Name) else y.attr
+                        out |= names.get(nm, {'<unresolved %s>' % nm})
+    return out, sites
+
+
 def model_consts(repo):
     init = repo.method('Model', '__init__')
     out = {}
@@ -244,6 +286,18 @@ def check_output_gates(rep, repo):
         f = repo.classes['Model'][renderers[0]]
     consts = model_consts(repo)
     pc = pulpfacts.constants()
+    if 'OPTIMAL_PULP_STATUS' not in consts and 'NOTSOLVED_PULP_STATUS' not in consts:
+        # the status strings are not attributes of the model (module-level constants, literals, an enum): judge every string a
+        # status is compared with anywhere in the solver package
+        compared, sites = status_strings_compared(repo)
+        valid = set(pc['LpStatus'].values())
+        bad_ = sorted(x for x in compared if x not in valid)
+        if any(x.startswith('<unresolved') for x in bad_):
+            rep.inconclusive(rule, f.where, 'the strings a solver status is compared with can be resolved', got=bad_)
+            return
+        rep.check(not bad_ and pc['LpStatus'].get('LpStatusOptimal') in compared, rule, f.where, "every string a solver status is compared with is one of PuLP's LpStatus strings, 'Optimal' among them (%d comparisons)" % sites,
+                  got=sorted(compared), want=sorted(valid), construct='status strings %s' % (bad_ or sorted(compared)))
+        consts = dict(consts, OPTIMAL_PULP_STATUS=pc['LpStatus'].get('LpStatusOptimal'), NOTSOLVED_PULP_STATUS=pc['LpStatus'].get('LpStatusNotSolved'))
     rep.check(consts.get('OPTIMAL_PULP_STATUS') == pc['LpStatus'].get('LpStatusOptimal'), rule, repo.method('Model', '__init__').where,
               "the model's Optimal constant equals PuLP's LpStatus string", got=consts.get('OPTIMAL_PULP_STATUS'), want=pc['LpStatus'].get('LpStatusOptimal'),
               construct='OPTIMAL constant')
@@ -264,6 +318,9 @@ def check_output_gates(rep, repo):
     M = lp.MODEL
     status = A(M, 'pulp_status')
     OPT, NS = A(M, 'OPTIMAL_PULP_STATUS'), A(M, 'NOTSOLVED_PULP_STATUS')
+    # the constants as model attributes, or folded to PuLP's own strings (module-level constants, literals: judged above)
+    OPTS = (OPT, C(pc['LpStatus'].get('LpStatusOptimal')))
+    NSS = (NS, C(pc['LpStatus'].get('LpStatusNotSolved')))
     limit = A(M, 'time_limit')
     total = CALL(A(BIN('Sub', A(M, 'time_after_solve'), A(M, 'time_start')), 'total_seconds'), [])
 
@@ -281,7 +338,7 @@ def check_output_gates(rep, repo):
     def is_timeout_core(c):
         if c[0] == 'bool' and c[1] == 'or' and len(c[2]) == 2:
             parts = {norm(x) for x in c[2]}
-            a_ok = any(x in parts for x in (CMP('Eq', status, NS), CMP('Eq', NS, status)))
+            a_ok = any(x in parts for NS_ in NSS for x in (CMP('Eq', status, NS_), CMP('Eq', NS_, status)))
             b_ok = any(x in parts for x in (CMP('Gt', total, limit), CMP('Lt', limit, total), CMP('GtE', total, limit), CMP('LtE', limit, total)))
             return a_ok and b_ok
         return False
@@ -289,10 +346,11 @@ def check_output_gates(rep, repo):
     def opt_gate(c):
         """-> label of the edge on which the status is Optimal, or None."""
         c = norm(c)
-        if c in (CMP('NotEq', status, OPT), CMP('NotEq', OPT, status)):
-            return False
-        if c in (CMP('Eq', status, OPT), CMP('Eq', OPT, status)):
-            return True
+        for OPT_ in OPTS:
+            if c in (CMP('NotEq', status, OPT_), CMP('NotEq', OPT_, status)):
+                return False
+            if c in (CMP('Eq', status, OPT_), CMP('Eq', OPT_, status)):
+                return True
         return None
 
     def atom_of(c):
@@ -301,9 +359,9 @@ def check_output_gates(rep, repo):
             return ('L', True)
         if c in (CMP('Eq', limit, NONE), CMP('Is', limit, NONE), CMP('Eq', NONE, limit), CMP('Is', NONE, limit)):
             return ('L', False)
-        if c in (CMP('Eq', status, NS), CMP('Eq', NS, status)):
+        if any(c in (CMP('Eq', status, NS_), CMP('Eq', NS_, status)) for NS_ in NSS):
             return ('N', True)
-        if c in (CMP('NotEq', status, NS), CMP('NotEq', NS, status)):
+        if any(c in (CMP('NotEq', status, NS_), CMP('NotEq', NS_, status)) for NS_ in NSS):
             return ('N', False)
         if c in (CMP('Gt', total, limit), CMP('Lt', limit, total)):
             return ('T', True)
